@@ -51,6 +51,9 @@ Proof.
     destruct (commit_authenticated t id) as [t' r]; exact C.
   - (* TRemove *) intros s Hs Ha. simpl in Hs. apply filter_In in Hs. destruct Hs as [Hs _].
     apply in_or_app; left; auto.
+  - (* TCommitH: the handler form of TCommit *)
+    pose proof (commit_auth_in t id c H) as C.
+    destruct (commit_authenticated t id) as [t' r]. destruct r as [[sv ls]|]; exact C.
 Qed.
 
 Lemma trun_cons : forall t o r, fst (trun t (o :: r)) = fst (trun (fst (tstep t o)) r).
